@@ -38,23 +38,23 @@ type kv struct {
 type omap struct{ e []kv }
 
 type val struct {
-	k  kind
-	i  int64
-	s  string
-	b  bool
-	m  *omap
-	a  []val
+	k kind
+	i int64
+	s string
+	b bool
+	m *omap
+	a []val
 }
 
 var vAbsent = val{k: kAbsent}
 var vErr = val{k: kErr}
 
-func vInt(i int64) val   { return val{k: kInt, i: i} }
-func vStr(s string) val  { return val{k: kStr, s: s} }
-func vBool(b bool) val   { return val{k: kBool, b: b} }
-func vMap(m *omap) val   { return val{k: kMap, m: m} }
-func vArr(a []val) val   { return val{k: kArr, a: a} }
-func newMapVal() val     { return val{k: kMap, m: &omap{}} }
+func vInt(i int64) val     { return val{k: kInt, i: i} }
+func vStr(s string) val    { return val{k: kStr, s: s} }
+func vBool(b bool) val     { return val{k: kBool, b: b} }
+func vMap(m *omap) val     { return val{k: kMap, m: m} }
+func vArr(a []val) val     { return val{k: kArr, a: a} }
+func newMapVal() val       { return val{k: kMap, m: &omap{}} }
 func (v val) isColl() bool { return v.k == kMap || v.k == kArr }
 
 func (m *omap) find(k string) int {
